@@ -4,6 +4,7 @@ package c04
 
 import (
 	"fmt"
+	"github.com/llir/llvm/ir"
 	"os"
 	"path/filepath"
 	"sort"
@@ -36,6 +37,163 @@ func shape(src []trsrc.Entity) string {
 	return strings.Join(ks, ",")
 }
 
+// wantUses counts, per definition of the abstract source, the references the source makes to it
+// (keys "glob:<key>", "comdat:<name>", "md:<id>", "block:<func key>/<block>").
+func wantUses(src []trsrc.Entity) map[string]int {
+	want := map[string]int{}
+	keys := trsrc.Keys(src)
+	for i, e := range src {
+		switch {
+		case e.K == "global" || e.K == "alias" || e.K == "ifunc" || e.K == "func":
+			want["glob:"+keys[i]] += 0
+			for _, l := range e.Locals {
+				if l.LK == "block" && l.N != "" {
+					want["block:"+keys[i]+"/"+l.N] += 0
+				}
+			}
+		case e.K == "comdat":
+			want["comdat:"+e.N] += 0
+		case e.K == "md":
+			want["md:"+e.N] += 0
+		}
+	}
+	add := func(x trsrc.Ref) {
+		switch trsrc.RefClass(x.RK) {
+		case "glob":
+			want["glob:"+x.To]++
+		case "comdat":
+			want["comdat:"+x.To]++
+		case "md":
+			want["md:"+x.To]++
+		case "block":
+			want["glob:"+x.To]++
+			want["block:"+x.To+"/"+x.Aux]++
+		}
+	}
+	for _, e := range src {
+		for _, x := range e.Refs {
+			add(x)
+		}
+		for _, l := range e.Locals {
+			for _, x := range l.Refs {
+				add(x)
+			}
+		}
+	}
+	return want
+}
+
+// gotUses maps the use counts of the walk to the same keys.
+func gotUses(m *ir.Module, uses map[interface{}]int) map[string]int {
+	got := map[string]int{}
+	gkey := func(named bool, name string, id int64) string {
+		if named {
+			return name
+		}
+		return fmt.Sprintf("@%d", id)
+	}
+	for _, g := range m.Globals {
+		got["glob:"+gkey(!g.IsUnnamed(), g.GlobalName, g.GlobalID)] = uses[g]
+	}
+	for _, g := range m.Aliases {
+		got["glob:"+gkey(!g.IsUnnamed(), g.GlobalName, g.GlobalID)] = uses[g]
+	}
+	for _, g := range m.IFuncs {
+		got["glob:"+gkey(!g.IsUnnamed(), g.GlobalName, g.GlobalID)] = uses[g]
+	}
+	for _, f := range m.Funcs {
+		k := gkey(!f.IsUnnamed(), f.GlobalName, f.GlobalID)
+		got["glob:"+k] = uses[f]
+		for _, b := range f.Blocks {
+			if !b.IsUnnamed() {
+				got["block:"+k+"/"+b.LocalName] = uses[b]
+			}
+		}
+	}
+	for _, c := range m.ComdatDefs {
+		got["comdat:"+c.Name] = uses[c]
+	}
+	for _, md := range m.MetadataDefs {
+		got[fmt.Sprintf("md:%d", md.ID())] = uses[md]
+	}
+	return got
+}
+
+// renumbered renames the keys of the unnamed global entities the way printing renumbers them: in
+// print-group order (variables, aliases, ifuncs, functions), textual order within a group.
+func renumbered(src []trsrc.Entity, want map[string]int) map[string]int {
+	keys := trsrc.Keys(src)
+	rank := map[string]int{"global": 0, "alias": 1, "ifunc": 2, "func": 3}
+	type un struct {
+		key  string
+		r, i int
+	}
+	var us []un
+	for i, e := range src {
+		if r, ok := rank[e.K]; ok && e.N == "" {
+			us = append(us, un{keys[i], r, i})
+		}
+	}
+	sort.Slice(us, func(a, b int) bool {
+		if us[a].r != us[b].r {
+			return us[a].r < us[b].r
+		}
+		return us[a].i < us[b].i
+	})
+	ren := map[string]string{}
+	for k, u := range us {
+		ren[u.key] = fmt.Sprintf("@%d", k)
+	}
+	out := map[string]int{}
+	for k, n := range want {
+		parts := strings.SplitN(k, ":", 2)
+		name := parts[1]
+		rest := ""
+		if parts[0] == "block" {
+			j := strings.Index(name, "/")
+			name, rest = name[:j], name[j:]
+		}
+		if nn, ok := ren[name]; ok && (parts[0] == "glob" || parts[0] == "block") {
+			name = nn
+		}
+		out[parts[0]+":"+name+rest] = n
+	}
+	return out
+}
+
+// useCounts compares, for a pattern of Translate.tla, the number of references the source makes to
+// each definition with the number of references of the parsed module that are bound to the object
+// listed as that definition: a reference bound to a look-alike, to another entity or to a fresh copy
+// changes a count even where every object reached is, taken alone, a listed definition.
+func useCounts(rep *mbt.Report, origin string, src []trsrc.Entity, label, text string, printed bool) {
+	m, err, p := trcheck.ParseReal(label, text)
+	if p != "" || err != nil || m == nil {
+		return
+	}
+	_, st := irwalk.Check(m)
+	want, got := wantUses(src), gotUses(m, st.Uses)
+	if printed {
+		want = renumbered(src, want)
+	}
+	var ks []string
+	for k := range want {
+		ks = append(ks, k)
+	}
+	sort.Strings(ks)
+	n := rep.Extra["use_counts_compared"].(int)
+	rep.Extra["use_counts_compared"] = n + len(ks)
+	for _, k := range ks {
+		g, listed := got[k]
+		if !listed {
+			rep.Fail(mbt.Failure{Signature: "C04|use-count|" + origin + "|definition not listed|" + strings.SplitN(k, ":", 2)[0], What: fmt.Sprintf("the source defines %s, the parsed module does not list it — input %s", k, label), Case: map[string]string{"src": text}})
+			continue
+		}
+		if g != want[k] {
+			rep.Fail(mbt.Failure{Signature: "C04|use-count|" + origin + "|" + strings.SplitN(k, ":", 2)[0], What: fmt.Sprintf("the source refers to %s %d time(s); %d reference(s) of the parsed module are bound to the object listed as that definition — input %s", k, want[k], g, label), Case: map[string]string{"src": text}})
+		}
+	}
+}
+
 func walkText(rep *mbt.Report, origin, label, text string) {
 	m, err, p := trcheck.ParseReal(label, text)
 	if p != "" || err != nil || m == nil {
@@ -55,6 +213,7 @@ func walkText(rep *mbt.Report, origin, label, text string) {
 func Run(tier, replay string) {
 	rep := mbt.NewReport("C04", tier, "model_checking")
 	rep.Extra["references_checked"] = 0
+	rep.Extra["use_counts_compared"] = 0
 	rep.Rule = "a case is a parsed module whose object graph was walked by reflection (every reachable global, local, named type, comdat, attribute group and numbered metadata node compared by pointer with the definition lists; parent links; placeholder blocks); sources: TLC vectors of Translate.tla (reference patterns x permutations), repository test inputs, seeded llvm-stress programs, and the printed form of each"
 	if replay != "" {
 		var rf struct {
@@ -101,8 +260,10 @@ func Run(tier, replay string) {
 			rep.Fail(mbt.Failure{Signature: "C04|print-panic|" + shape(c.Src), What: "printing the parsed pattern panics: " + c.PrintPanic, Case: map[string]string{"src": c.Text}})
 		}
 		walkText(rep, "pattern", "vector.ll", c.Text)
+		useCounts(rep, "pattern", c.Src, "vector.ll", c.Text, false)
 		if c.Printed != "" {
 			walkText(rep, "pattern-printed", "vector-printed.ll", c.Printed)
+			useCounts(rep, "pattern-printed", c.Src, "vector-printed.ll", c.Printed, true)
 		}
 	}
 	if discarded*10 > len(cs) {
